@@ -67,7 +67,7 @@ def _real_sed(inp):
     s.name = 'x'
     s.distance = 1 * u.kpc
     s.wav = np.array(inp['w'], dtype=float) * u.micron
-    s.apertures = np.array(inp['ap'], dtype=float) * u.au
+    s.apertures = (np.array(inp['ap'], dtype=float) * u.au).to(getattr(u, inp.get('table_unit', 'au')))
     s.flux = np.array(inp['flux'], dtype=float) * u.mJy
     s.error = np.array(inp['flux'], dtype=float) * u.mJy
     return s
@@ -78,7 +78,7 @@ def replay_sed(inp):
     s = _real_sed(inp)
     req = np.array(inp['req'], dtype=float)
     if inp.get('as_quantity'):
-        req = req * u.au
+        req = (req * u.au).to(getattr(u, inp.get('req_unit', 'au')))
     below = len(inp['ap']) > 1 and any(x < inp['ap'][0] * (1 - 1e-12) for x in inp['req'])
     try:
         out = s.interpolate(req)
@@ -184,32 +184,36 @@ def h_conv(na, nm, nreq, req_unit='AU', below=False):
     return run
 
 
-def make_sym_sed(io, c, na, n_wav):
+def make_sym_sed(io, c, na, n_wav, table_unit='au'):
     s = io.sed.SED()
     s.name = 'x'
     s.distance = 1.0 * U.kpc
     w = sedfix.monotone_wavs(c, n_wav, True)
     s.wav = w * U.micron
     ap = table(c, na)
-    if na > 1 or True:
+    if table_unit == 'au':
         s.apertures = ap * U.au
+    else:
+        # the same radii stored in another length unit (exact rational scale)
+        s.apertures = (ap * su.exact_factor(su._u.au, getattr(su._u, table_unit))) * getattr(U, table_unit)
     fl = symnp.sym_array('flux', (na, n_wav))
     s.flux = fl * U.mJy
     s.error = fl * U.mJy
     return s, w, ap, fl
 
 
-def h_sed(na, n_wav, nreq, as_quantity=False, below=False):
+def h_sed(na, n_wav, nreq, as_quantity=False, below=False, table_unit='au', req_unit='au'):
     def run(part):
         std_assumptions(part)
         part.bounds = {'function': 'SED.interpolate', 'apertures': na, 'wavelengths': n_wav, 'requests': nreq,
-                       'request': 'Quantity in AU' if as_quantity else 'bare numbers in AU (as plot() passes)', 'below_table': below}
+                       'request': ('Quantity in %s' % req_unit) if as_quantity else 'bare numbers in AU (as plot() passes)', 'below_table': below,
+                       'table_unit': table_unit}
         io = sedfix.IO()
         ex = C.Explorer(query_timeout_ms=60000)
         cl = R.Claims(part, ex, ID)
 
         def body(c):
-            s, w, ap, fl = make_sym_sed(io, c, na, n_wav)
+            s, w, ap, fl = make_sym_sed(io, c, na, n_wav, table_unit)
             req = symnp.sym_array('req', nreq)
             for i in range(nreq):
                 c.assume(req[i] > 0)
@@ -219,13 +223,15 @@ def h_sed(na, n_wav, nreq, as_quantity=False, below=False):
                     elif not below:
                         c.assume(req[i] >= ap[0])
             c.vars = dict(w=w, ap=ap, fl=fl, req=req.copy())
+            if as_quantity and req_unit != 'au':
+                return s.interpolate((req * su.exact_factor(su._u.au, getattr(su._u, req_unit))) * getattr(U, req_unit))
             return s.interpolate(req * U.au if as_quantity else req)
 
         with loader.Coverage() as cov:
             for c, out in ex.run(body):
                 v = c.vars
                 inputs = lambda m: {'w': mval(m, v['w']), 'ap': mval(m, v['ap']), 'flux': mval(m, v['fl']), 'req': mval(m, v['req']),
-                                    'as_quantity': as_quantity}
+                                    'as_quantity': as_quantity, 'table_unit': table_unit, 'req_unit': req_unit}
                 if out[0] == 'exc':
                     if below and 'too small' in str(out[1]):
                         cl.claim(c, True, 'A2 a request below the smallest radius is refused', inputs, replay_sed)
@@ -318,6 +324,10 @@ def configs(tier, seed):
     for na in ((2, 3) if q else (2, 3, 4)):
         cfgs.append(Config('SED.interpolate na=%d n_wav=2 nreq=2 bare AU' % na, h_sed(na, 2, 2), 3000))
     cfgs.append(Config('SED.interpolate na=2 n_wav=2 nreq=1 Quantity', h_sed(2, 2, 1, as_quantity=True), 3000))
+    cfgs.append(Config('SED.interpolate na=2 n_wav=2 nreq=1 table in cm, Quantity in AU', h_sed(2, 2, 1, as_quantity=True, table_unit='cm'), 3000))
+    cfgs.append(Config('SED.interpolate na=2 n_wav=2 nreq=1 table in pc, Quantity in cm', h_sed(2, 2, 1, as_quantity=True, table_unit='pc', req_unit='cm'), 3000))
+    cfgs.append(Config('SED.interpolate na=2 n_wav=2 nreq=1 table in cm, bare AU numbers', h_sed(2, 2, 1, table_unit='cm'), 3000))
+    cfgs.append(Config('SED.interpolate na=2 below the table, table in pc, Quantity in AU', h_sed(2, 2, 2, as_quantity=True, below=True, table_unit='pc'), 600))
     cfgs.append(Config('SED.interpolate na=1 (single aperture) n_wav=2 nreq=2', h_sed(1, 2, 2), 600))
     cfgs.append(Config('SED.interpolate na=2 below the table', h_sed(2, 2, 2, below=True), 600))
     cfgs.append(Config('interpolate_variable na=2 n_wav=3 filters at 0,2', h_var(2, 3, (0, 2)), 3000))
